@@ -280,6 +280,7 @@ def gen_spec(rng, profile=None):
         modules.append(parent + [name])
     items = []
     disp_used = {}
+    fn_twins = set()
     for m in modules[1:]:
         if rng.random() < profile.get("p_group", 0.5):
             parent = m[:-1]
@@ -295,6 +296,12 @@ def gen_spec(rng, profile=None):
         used = used_by_parent.setdefault(tuple(m), set())
         du = disp_used.setdefault(tuple(m), set())
         raw = rand_ident(rng, used)
+        # a function and a sibling module may share a name (different namespaces in Rust)
+        twins = [x[-1] for x in modules if x[:-1] == m and ("fn", tuple(m), x[-1]) not in fn_twins]
+        clash = bool(twins) and rng.random() < profile.get("p_fn_mod_twin", 0.12)
+        if clash:
+            raw = rng.choice(twins)
+            fn_twins.add(("fn", tuple(m), raw))
         display = rand_display(rng, du, wide=profile.get("wide", True)) if rng.random() < 0.5 else raw.replace("r#", "")
         if display in du and display != raw.replace("r#", ""):
             continue
@@ -302,6 +309,8 @@ def gen_spec(rng, profile=None):
         line_no = rng.randrange(1, 80) if rng.random() < 0.8 else line_no
         b = Bench(bid, m, raw, display, rng.choice(files), line_no, rng.choice([1, 1, 5, 9]), rand_opts(rng, profile, "bench"), rand_beh(rng, profile))
         r = rng.random()
+        if clash and r >= profile.get("p_args", 0.25):
+            r = 1.0  # a generic function would share its node with the module: keep twins plain or args
         if r < profile.get("p_args", 0.25):
             b.kind = "args"
             b.argtype = rng.choice(list(ARG_LISTS))
